@@ -108,6 +108,14 @@ def classify_path(p, path):
                     diff = b
                     continue
                 break
+            # not handed to remove_pbc: an inline (or helper) re-implementation of the minimum image is accepted when it is
+            # verified against the reference form (shared with C02's frame typing and algebra)
+            from . import grlib
+            for b in anc[idx + 1:]:
+                if b[0] in ("bin", "call") and any(x[0] == "call" and x[1] in ("numpy.rint", "numpy.round", "numpy.around") for x in walk(b)):
+                    v = grlib.inline_image(grlib._inline(b), record=False)
+                    if v[0] == "ok":
+                        return "imaged-difference"
             return "raw-difference"
         if k == "bin" and a[1] == "*":
             other = a[3] if a[2] == cur else a[2]
